@@ -122,7 +122,8 @@ Section InvFacts.
     - exfalso. apply H. reflexivity.
     - destruct (Z_lt_dec (key b) (key a)) as [Hlt|Hge].
       + exists [], a, b, s. split; [reflexivity|exact Hlt].
-      + destruct (list_eq_dec P_dec (inv (b :: s)) []) as [E|NE].
+      + assert (D : inv (b :: s) = [] \/ inv (b :: s) <> []) by (destruct (inv (b :: s)); [left; reflexivity|right; discriminate]).
+        destruct D as [E|NE].
         * (* tail sorted and a <= b: whole list sorted, contradiction *)
           exfalso. apply H. apply sorted_inv_nil. apply inv_nil_sorted in E.
           constructor; [exact E|]. inversion E as [|? ? Hs Hb]; subst. constructor; [unfold key_le; lia|].
@@ -302,8 +303,8 @@ Proof.
         rewrite (sorted_inv_nil ex m Hms), (sorted_inv_nil ex r1 Hr1), (sorted_inv_nil ex r2 Hr2).
         rewrite (cnt_cross_perm_l elt_dec ex m (r1 ++ r2) (concat rs) Hmp x).
         rewrite (cnt_cross_perm_r elt_dec ex (r1 ++ r2) (concat rs) (concat rest) Hpp x).
-        specialize (Hpc x). specialize (Hmc x). cbn [count_occ]. lia.
-      * intros f Hf. rewrite (app_assoc r1 r2), !filter_app, (Hmf f Hf), (Hpf f Hf), filter_app. reflexivity.
+        specialize (Hpc x). specialize (Hmc x). cbn [count_occ]. unfold node in *. lia.
+      * intros f Hf. rewrite (app_assoc r1 r2), !filter_app, (Hmf f Hf), (Hpf f Hf). reflexivity.
       * cbn [length]. rewrite Hpl. reflexivity.
 Qed.
 
@@ -312,7 +313,7 @@ Lemma div2_S_lt n : (2 <= n)%nat -> (Nat.div2 (S n) < n)%nat.
 Proof.
   intros H. destruct n as [|[|n]]; try lia.
   change (Nat.div2 (S (S (S n)))) with (S (Nat.div2 (S n))).
-  pose proof (Nat.div2_decr (S n) (S n) (le_n _)). lia.
+  pose proof (Nat.div2_decr (S n) n (le_n _)). lia.
 Qed.
 
 Definition passes_post (runs : list (list elt)) (res : list (list elt) * list node) : Prop :=
@@ -374,4 +375,255 @@ Proof.
     exists (concat rs), ns. split; [reflexivity|]. repeat split; auto.
     + apply (Permutation_count_occ (P_dec elt_dec)). exact Hc.
     + intros k. apply Hf. intros a b Ha Hb. apply Z.eqb_eq in Ha, Hb. lia.
+Qed.
+
+(* ================================================================== ProcessIntersectList *)
+Lemma adjacent_split l a b : adjacent l a b = true ->
+  exists p s, l = p ++ a :: b :: s \/ l = p ++ b :: a :: s.
+Proof.
+  induction l as [|c l IH]; [discriminate|]. destruct l as [|d t]; [discriminate|].
+  change (adjacent (c :: d :: t) a b) with
+    (((c =? a)%nat && (d =? b)%nat) || ((c =? b)%nat && (d =? a)%nat) || adjacent (d :: t) a b).
+  intros H. apply orb_true_iff in H. destruct H as [H|H].
+  - apply orb_true_iff in H. destruct H as [H|H]; apply andb_true_iff in H; destruct H as [H1 H2];
+      apply Nat.eqb_eq in H1, H2; subst; exists [], t; [left|right]; reflexivity.
+  - destruct (IH H) as [p [s [E|E]]]; exists (c :: p), s; rewrite E; [left|right]; reflexivity.
+Qed.
+
+Lemma split_adjacent p a b s : adjacent (p ++ a :: b :: s) a b = true.
+Proof.
+  induction p as [|c p IH].
+  - cbn [app adjacent]. rewrite !Nat.eqb_refl. reflexivity.
+  - destruct p as [|d p].
+    + cbn [app] in *. change (adjacent (c :: a :: b :: s) a b) with
+        (((c =? a)%nat && (a =? b)%nat) || ((c =? b)%nat && (a =? a)%nat) || adjacent (a :: b :: s) a b).
+      rewrite IH. apply orb_true_r.
+    + cbn [app] in *. change (adjacent (c :: d :: p ++ a :: b :: s) a b) with
+        (((c =? a)%nat && (d =? b)%nat) || ((c =? b)%nat && (d =? a)%nat) || adjacent (d :: p ++ a :: b :: s) a b).
+      rewrite IH. apply orb_true_r.
+Qed.
+
+Lemma swap_adj_split p a b s : NoDup (p ++ a :: b :: s) -> swap_adj (p ++ a :: b :: s) a b = Some (p ++ b :: a :: s).
+Proof.
+  induction p as [|c p IH]; intros Hnd.
+  - cbn [app swap_adj]. rewrite !Nat.eqb_refl. reflexivity.
+  - assert (Hca : c <> a).
+    { intros ->. cbn [app] in Hnd. inversion Hnd as [|? ? Hn _]; subst. apply Hn, in_or_app. right; left; reflexivity. }
+    assert (Hnd' : NoDup (p ++ a :: b :: s)) by (cbn [app] in Hnd; inversion Hnd; assumption).
+    specialize (IH Hnd').
+    destruct p as [|d p]; cbn [app] in *.
+    + change (swap_adj (c :: a :: b :: s) a b) with
+        (if (c =? a)%nat && (a =? b)%nat then Some (a :: c :: b :: s) else option_map (cons c) (swap_adj (a :: b :: s) a b)).
+      apply Nat.eqb_neq in Hca. rewrite Hca. cbn [andb]. rewrite IH. reflexivity.
+    + change (swap_adj (c :: d :: p ++ a :: b :: s) a b) with
+        (if (c =? a)%nat && (d =? b)%nat then Some (d :: c :: p ++ a :: b :: s)
+         else option_map (cons c) (swap_adj (d :: p ++ a :: b :: s) a b)).
+      apply Nat.eqb_neq in Hca. rewrite Hca. cbn [andb]. rewrite IH. reflexivity.
+Qed.
+
+Lemma find_adj_exists ael ns a b : In (a, b) ns -> adjacent ael a b = true -> exists j, find_adj ael ns = Some j.
+Proof.
+  induction ns as [|[c d] ns IH]; [intros []|]. intros Hin Hadj. cbn [find_adj].
+  destruct (adjacent ael c d) eqn:E; [exists O; reflexivity|].
+  destruct Hin as [Hin|Hin]; [inversion Hin; subst; congruence|].
+  destruct (IH Hin Hadj) as [j ->]. exists (S j). reflexivity.
+Qed.
+
+Lemma find_adj_spec ael ns j : find_adj ael ns = Some j ->
+  (j < length ns)%nat /\ forall d, adjacent ael (fst (nth j ns d)) (snd (nth j ns d)) = true.
+Proof.
+  revert j. induction ns as [|[c e] ns IH]; [discriminate|]. intros j. cbn [find_adj].
+  destruct (adjacent ael c e) eqn:E.
+  - intros H. inversion H; subst j. split; [cbn [length]; lia|]. intros d. exact E.
+  - destruct (find_adj ael ns) as [j'|] eqn:F; [|discriminate]. intros H. inversion H; subst j.
+    destruct (IH j' eq_refl) as [Hl Ha]. split; [cbn [length]; lia|]. intros d. apply Ha.
+Qed.
+
+Lemma set_nth_perm {X} (v d : X) : forall t j, (j < length t)%nat -> Permutation (v :: t) (nth j t d :: set_nth j t v).
+Proof.
+  induction t as [|h t IH]; intros j Hj; [cbn [length] in Hj; lia|].
+  destruct j as [|j]; cbn [nth set_nth].
+  - apply perm_swap.
+  - cbn [length] in Hj. assert (Hj' : (j < length t)%nat) by lia. specialize (IH j Hj').
+    eapply Permutation_trans; [apply perm_swap|].
+    eapply Permutation_trans; [apply perm_skip, IH|]. apply perm_swap.
+Qed.
+
+Lemma swap_nodes_spec (ns : list inode) j d : (j < length ns)%nat ->
+  exists rest, swap_nodes ns j = nth j ns d :: rest /\ Permutation ns (nth j ns d :: rest).
+Proof.
+  intros Hj. destruct ns as [|n0 t]; [cbn [length] in Hj; lia|]. destruct j as [|j].
+  - exists t. split; reflexivity.
+  - cbn [length] in Hj. assert (Hj' : (j < length t)%nat) by lia.
+    exists (set_nth j t n0). cbn [swap_nodes nth]. rewrite (nth_indep t n0 d Hj'). split; [reflexivity|].
+    apply set_nth_perm, Hj'.
+Qed.
+
+Lemma process_unfold f ael ns : ns <> [] ->
+  process (S f) ael ns =
+  match find_adj ael ns with
+  | None => inr ScanOverrun
+  | Some j =>
+      match swap_nodes ns j with
+      | (a, b) :: rest =>
+          match swap_adj ael a b with
+          | None => inr SwapPrecond
+          | Some ael' =>
+              match process f ael' rest with
+              | inl r => inl (mkP (p_ael r) ((a, b) :: p_order r) ((j, length ns) :: p_scans r))
+              | inr e => inr e
+              end
+          end
+      | [] => inr OutOfFuel
+      end
+  end.
+Proof. destruct ns; [congruence|reflexivity]. Qed.
+
+Section Process.
+  Variable x : nat -> Z.           (* curr_x at the top of the scanbeam: the order the AEL has to reach *)
+  Notation ninv := (inv_pairs x).
+  Notation ncnt := (count_occ (P_dec Nat.eq_dec)).
+
+  (* one step: the scan succeeds inside the vector and the node found has its edges adjacent, left edge first *)
+  Lemma process_step ael ns : NoDup ael -> Permutation ns (ninv ael) -> ns <> [] ->
+    exists j a b rest p s,
+      find_adj ael ns = Some j /\ (j < length ns)%nat /\ swap_nodes ns j = (a, b) :: rest /\
+      Permutation ns ((a, b) :: rest) /\ ael = p ++ a :: b :: s /\ x b < x a.
+  Proof.
+    intros Hnd Hperm Hne.
+    assert (Hinv : ninv ael <> []).
+    { intros E. rewrite E in Hperm. apply Permutation_sym, Permutation_nil in Hperm. contradiction. }
+    destruct (adjacent_inversion x ael Hinv) as [p0 [a0 [b0 [s0 [E0 Hk0]]]]].
+    assert (Hin0 : In (a0, b0) ns).
+    { apply (Permutation_in _ (Permutation_sym Hperm)). rewrite E0.
+      change (a0 :: b0 :: s0) with (a0 :: [] ++ b0 :: s0). apply split_in_inv, Hk0. }
+    assert (Hadj0 : adjacent ael a0 b0 = true) by (rewrite E0; apply split_adjacent).
+    destruct (find_adj_exists ael ns a0 b0 Hin0 Hadj0) as [j Hj].
+    destruct (find_adj_spec ael ns j Hj) as [Hlt Hadj].
+    destruct (swap_nodes_spec ns j (O, O) Hlt) as [rest [Hsw Hp]].
+    specialize (Hadj (O, O)).
+    unfold inode in *. remember (nth j ns (O, O)) as nd eqn:En. destruct nd as [a b]. cbn [fst snd] in Hadj.
+    assert (Hin : In (a, b) (ninv ael)).
+    { apply (Permutation_in _ Hperm). rewrite En. apply nth_In, Hlt. }
+    destruct (in_inv_split x a b ael Hin) as [l1 [l2 [l3 [E Hk]]]].
+    destruct (adjacent_split ael a b Hadj) as [p [s [E'|E']]].
+    - (* a immediately before b *)
+      exists j, a, b, rest, p, s. repeat split; auto.
+    - (* b immediately before a: impossible, a also occurs before b and the list is duplicate free *)
+      exfalso. rewrite E in Hnd.
+      assert (E2 : l1 ++ a :: l2 ++ b :: l3 = (p ++ [b]) ++ a :: s).
+      { rewrite <- app_assoc. cbn [app]. rewrite <- E'. symmetry. exact E. }
+      destruct (NoDup_split_unique a l1 (l2 ++ b :: l3) (p ++ [b]) s Hnd E2) as [E3 _].
+      subst l1.
+      replace ((p ++ [b]) ++ a :: l2 ++ b :: l3) with (((p ++ [b]) ++ a :: l2) ++ b :: l3) in Hnd
+        by (rewrite <- !app_assoc; reflexivity).
+      apply NoDup_remove_2 in Hnd. apply Hnd.
+      apply in_or_app. left. apply in_or_app. left. apply in_or_app. right. left. reflexivity.
+  Qed.
+
+  Theorem process_safe : forall n ael ns, length ns = n -> NoDup ael -> Permutation ns (ninv ael) ->
+    exists r, process n ael ns = inl r /\
+      Permutation (p_order r) ns /\ check_schedule ael (p_order r) = Some (p_ael r) /\
+      Forall (fun jn => (fst jn < snd jn)%nat) (p_scans r) /\ length (p_scans r) = n /\
+      Permutation (p_ael r) ael /\ ninv (p_ael r) = [] /\
+      (forall k, filter (fun e => x e =? k) (p_ael r) = filter (fun e => x e =? k) ael).
+  Proof.
+    induction n as [|n IH]; intros ael ns Hlen Hnd Hperm.
+    - destruct ns; [|discriminate]. exists (mkP ael [] []). cbn [process p_order p_ael p_scans check_schedule length].
+      repeat split; auto. apply Permutation_nil, Hperm.
+    - assert (Hne : ns <> []) by (intros ->; discriminate).
+      destruct (process_step ael ns Hnd Hperm Hne) as [j [a [b [rest [p [s [Hf [Hlt [Hsw [Hp [E Hk]]]]]]]]]]].
+      rewrite (process_unfold n ael ns Hne), Hf, Hsw.
+      rewrite E in Hnd |- *. rewrite (swap_adj_split p a b s Hnd).
+      set (ael' := p ++ b :: a :: s).
+      assert (Hpa : Permutation ael' (p ++ a :: b :: s)) by (apply Permutation_app_head, perm_swap).
+      assert (Hnd' : NoDup ael') by (apply (Permutation_NoDup (Permutation_sym Hpa)), Hnd).
+      assert (Hrest : Permutation rest (ninv ael')).
+      { apply (perm_of_cnt Nat.eq_dec). intros m.
+        pose proof (cnt_perm Nat.eq_dec _ _ Hp m) as H1. pose proof (cnt_perm Nat.eq_dec _ _ Hperm m) as H2.
+        rewrite E in H2. rewrite (cnt_inv_swap Nat.eq_dec x p a b s m Hk) in H2.
+        rewrite (cnt_cons Nat.eq_dec (a, b) rest m) in H1. fold ael' in H2. lia. }
+      assert (Hlr : length rest = n).
+      { apply Permutation_length in Hp. cbn [length] in Hp. lia. }
+      destruct (IH ael' rest Hlr Hnd' Hrest) as [r [Hr [Ho [Hc [Hs [Hsl [Hpa' [Hi Hfk]]]]]]]].
+      rewrite Hr. eexists. split; [reflexivity|]. cbn [p_order p_ael p_scans].
+      repeat split.
+      + eapply Permutation_trans; [apply perm_skip, Ho|]. apply Permutation_sym, Hp.
+      + cbn [check_schedule]. rewrite (swap_adj_split p a b s Hnd). exact Hc.
+      + constructor; [cbn [fst snd]; exact Hlt|exact Hs].
+      + cbn [length]. rewrite Hsl. reflexivity.
+      + eapply Permutation_trans; [exact Hpa'|exact Hpa].
+      + exact Hi.
+      + intros k. rewrite (Hfk k). unfold ael'. symmetry. apply filter_key_swap.
+        destruct (x a =? k) eqn:Ea; [|reflexivity]. destruct (x b =? k) eqn:Eb; [|reflexivity].
+        apply Z.eqb_eq in Ea, Eb. lia.
+  Qed.
+End Process.
+
+(* the form "an unsorted list has an inversion at two consecutive indices" *)
+Lemma adjacent_inversion_index {A} (key : A -> Z) (l : list A) :
+  ~ StronglySorted (key_le key) l ->
+  exists i a b, nth_error l i = Some a /\ nth_error l (S i) = Some b /\ key b < key a.
+Proof.
+  intros H.
+  assert (Hinv : inv_pairs key l <> []) by (intros E; apply H, inv_nil_sorted, E).
+  destruct (adjacent_inversion key l Hinv) as [p [a [b [s [-> Hk]]]]].
+  exists (length p), a, b. repeat split; [| |exact Hk].
+  - rewrite nth_error_app2, Nat.sub_diag; [reflexivity|lia].
+  - rewrite nth_error_app2; [|lia]. replace (S (length p) - length p)%nat with 1%nat by lia. reflexivity.
+Qed.
+
+(* ================================================================== both phases together *)
+(* curr_x of an identity *)
+Definition xof (l : list elt) (i : nat) : Z :=
+  match find (fun e => (eid e =? i)%nat) l with Some e => ex e | None => 0 end.
+
+Lemma xof_in l e : NoDup (ids l) -> In e l -> xof l (eid e) = ex e.
+Proof.
+  unfold xof, ids. induction l as [|a l IH]; [intros _ []|]. cbn [map find]. intros Hnd Hin.
+  inversion Hnd as [|? ? Hn Hnd']; subst. destruct Hin as [->|Hin].
+  - rewrite Nat.eqb_refl. reflexivity.
+  - destruct (eid a =? eid e)%nat eqn:E; [|apply IH; assumption].
+    apply Nat.eqb_eq in E. exfalso. apply Hn. rewrite E. apply in_map, Hin.
+Qed.
+
+Lemma map_filter_ids (x : nat -> Z) (a : elt) (l : list elt) : (forall e, In e l -> x (eid e) = ex e) ->
+  map (fun b => (eid a, eid b)) (filter (fun b => ex b <? ex a) l) =
+  map (pair (eid a)) (filter (fun i => x i <? ex a) (map eid l)).
+Proof.
+  induction l as [|b l IH]; [reflexivity|]. intros Hl. cbn [filter map].
+  rewrite (Hl b (or_introl eq_refl)).
+  specialize (IH (fun e He => Hl e (or_intror He))).
+  destruct (ex b <? ex a); cbn [map]; rewrite IH; reflexivity.
+Qed.
+
+Lemma node_ids_inv (x : nat -> Z) (l : list elt) : (forall e, In e l -> x (eid e) = ex e) ->
+  node_ids (inv_pairs ex l) = inv_pairs x (ids l).
+Proof.
+  unfold node_ids, ids. induction l as [|a l IH]; [reflexivity|]. intros Hx. cbn [inv_pairs map].
+  rewrite map_app, IH by (intros e He; apply Hx; right; exact He). f_equal.
+  rewrite map_map. cbn [fst snd].
+  rewrite (Hx a (or_introl eq_refl)).
+  apply map_filter_ids. intros e He. apply Hx. right. exact He.
+Qed.
+
+(* Whatever order std::sort leaves the nodes in, processing the nodes recorded by BuildIntersectList on the AEL they
+   were recorded from never leaves intersect_nodes_, never violates SwapPositionsInAEL's precondition, and ends with
+   the AEL stably sorted by curr_x. *)
+Theorem intersections_safe (l : list elt) : NoDup (ids l) ->
+  exists s ns, build_intersect_list l = Some (s, ns) /\
+    forall ns', Permutation ns' (node_ids ns) ->
+      exists r, process_intersect_list (ids l) ns' = inl r /\
+        Forall (fun jn => (fst jn < snd jn)%nat) (p_scans r) /\
+        Permutation (p_ael r) (ids l) /\
+        StronglySorted (key_le (xof l)) (p_ael r) /\
+        (forall k, filter (fun i => xof l i =? k) (p_ael r) = filter (fun i => xof l i =? k) (ids l)).
+Proof.
+  intros Hnd. destruct (build_intersect_list_spec l) as [s [ns [E [Hns _]]]].
+  exists s, ns. split; [exact E|]. intros ns' Hp.
+  assert (Hp' : Permutation ns' (inv_pairs (xof l) (ids l))).
+  { eapply Permutation_trans; [exact Hp|]. rewrite <- (node_ids_inv (xof l) l (fun e He => xof_in l e Hnd He)).
+    unfold node_ids. apply Permutation_map, Hns. }
+  destruct (process_safe (xof l) (length ns') (ids l) ns' eq_refl Hnd Hp') as [r [Hr [_ [_ [Hs [_ [Hpa [Hi Hf]]]]]]]].
+  exists r. unfold process_intersect_list. repeat split; auto. apply inv_nil_sorted, Hi.
 Qed.
